@@ -177,9 +177,9 @@ StepSess(s) ==
      /\ IF j.op = "open" THEN
           \* the server registered the connection and said Welcome
           \* (the client library switches to protocol version 1 as part of its connect: field `switched`)
-          /\ LET tcp == Has(Sc, "proto") /\ Sc.proto = "TCP"
-                 rq == [op |-> "connect", c |-> ClientOf(s), proto |-> IF tcp THEN "TCP" ELSE "UNIX",
-                        addr |-> IF tcp THEN "addr" ELSE "j:null"]
+          /\ LET net == Has(Sc, "proto") /\ Sc.proto \in {"TCP", "WS"}
+                 rq == [op |-> "connect", c |-> ClientOf(s), proto |-> IF net THEN Sc.proto ELSE "UNIX",
+                        addr |-> IF net THEN "addr" ELSE "j:null"]
                  r1 == Result(S, rq, R.nacq + 1)
                  r2 == IF ExtMon /\ Has(j, "switched") /\ r1.rep = Ok
                          THEN [Then(r1, DoSet(r1.s, ClientKey(ClientOf(s), "protocolVersion"), NumT(j.switched), INT, TRUE)) EXCEPT !.rep = Ok]
